@@ -525,6 +525,7 @@ func runC04(ctx *core.Ctx) {
 				}
 			}
 			ctx.Check(len(intr) > 0 && bad == "", "I6", "testscript.run$cleanup#interrupt-then-wait", a.Pos(), "the clean-up defer interrupts every background process and waits for each of them on both branches %s", bad)
+			cleanupInterruptsFirst(ctx, "I6", a)
 			for _, c := range intr {
 				okI := false
 				if hit, _ := ag.ReachableWithout(ssax.PointAfter(c), waits, nil); hit != nil {
@@ -865,4 +866,36 @@ func c04More(ctx *core.Ctx) {
 			ctx.Check(bad == "", "I6c", shortFn(f)+"#start-to-record"+itoa(k+1), c.Pos(), "nothing can fail between the successful start and the recording %s", bad)
 		}
 	}
+}
+
+// cleanupInterruptsFirst: in run's clean-up every wait for a background command
+// lies behind the loop that interrupts them all, whatever else is true (a
+// process that ignores the watcher's SIGQUIT is only stopped by this interrupt;
+// waiting for it without having sent it blocks for ever).
+func cleanupInterruptsFirst(ctx *core.Ctx, rule string, a *ssa.Function) {
+	p := ctx.P
+	ag := graph(p, a)
+	intr := ag.Calls(tsPkg + ".interruptProcess")
+	if len(intr) == 0 {
+		ctx.Bad(rule, "testscript.run$cleanup#interrupt-unconditional", a.Pos(), "the clean-up never interrupts the background commands")
+		return
+	}
+	hdr := intr[0].Block().Index
+	if l, ok := innermostLoop(ag, hdr); ok {
+		hdr = l.Header
+	}
+	bad := ""
+	ag.Instrs(func(i ssa.Instruction) {
+		isWait := false
+		if c, ok := i.(*ssa.Call); ok && strings.HasSuffix(ssax.CalleeName(&c.Call), ".waitBackground") {
+			isWait = true
+		}
+		if u, ok := i.(*ssa.UnOp); ok && u.Op == token.ARROW && isFieldLoad("wait")(u.X) {
+			isWait = true
+		}
+		if isWait && !ag.DomBlock(hdr, i.Block().Index) {
+			bad = "a wait for background commands can be reached without passing the interrupt loop"
+		}
+	})
+	ctx.Check(bad == "", rule, "testscript.run$cleanup#interrupt-unconditional", intr[0].Pos(), "every wait in the clean-up is behind the loop that interrupts all background commands, unconditionally %s", bad)
 }
